@@ -850,7 +850,8 @@ class CombinedMultiDict(ImmutableMultiDictMixin[K, V], MultiDict[K, V]):  # type
 
     def __getitem__(self, key: K) -> V:
         for d in self.dicts:
-            if key in d:
+            # A key can be present without values, look further then.
+            if key in d and d.getlist(key):
                 return d[key]
         raise exceptions.BadRequestKeyError(key)
 
@@ -871,7 +872,8 @@ class CombinedMultiDict(ImmutableMultiDictMixin[K, V], MultiDict[K, V]):  # type
         type: cabc.Callable[[V], T] | None = None,
     ) -> V | T | None:
         for d in self.dicts:
-            if key in d:
+            # A key can be present without values, look further then.
+            if key in d and d.getlist(key):
                 if type is not None:
                     try:
                         return type(d[key])
